@@ -25,12 +25,50 @@ func strictOpen() bool { return ev.Open(prop, sigStrict) }
 
 // ---------------------------------------------------------------- library -> reference decoder
 
-func checkLibToRef(v amf0ref.Val) error {
+// LCase: a value marshalled by the library; optionally another value is marshalled after it while
+// the first result is still held, and the value is edited in place and marshalled again.
+type LCase struct {
+	Val   amf0ref.Val  `json:"val"`
+	Other *amf0ref.Val `json:"other,omitempty"`
+	Edit  uint64       `json:"edit,omitempty"`
+}
+
+func checkLibCase(c LCase) error {
+	v := amf0x.Clone(c.Val)
 	a := amf0x.Build(v)
 	b, err := a.MarshalBinary()
 	if err != nil {
 		return fmt.Errorf("marshal: %v", err)
 	}
+	if c.Other != nil {
+		// bytes handed out stay valid while the application marshals something else
+		if _, err := amf0x.Build(*c.Other).MarshalBinary(); err != nil {
+			return fmt.Errorf("marshal of the second value: %v", err)
+		}
+	}
+	if err := specSees(b, v); err != nil {
+		return err
+	}
+	if c.Edit == 0 {
+		return nil
+	}
+	what := amf0x.Mutate(a, &v, c.Edit, strictOpen())
+	if what == "" {
+		return nil
+	}
+	b, err = a.MarshalBinary()
+	if err != nil {
+		return fmt.Errorf("marshal after an in-place edit (%s): %v", what, err)
+	}
+	if err := specSees(b, v); err != nil {
+		return fmt.Errorf("after an in-place edit (%s): %v", what, err)
+	}
+	return nil
+}
+
+func checkLibToRef(v amf0ref.Val) error { return checkLibCase(LCase{Val: v}) }
+
+func specSees(b []byte, v amf0ref.Val) error {
 	rv, n, err := amf0ref.Decode(b, amf0ref.Spec)
 	if err != nil {
 		return fmt.Errorf("specification decoder rejects the library's bytes %s: %v", hexHead(b), err)
@@ -135,11 +173,25 @@ func genOpts() amf0x.Opts {
 func TestLibToSpecDecoder(t *testing.T) {
 	ev.Rapid(t, "lib-to-spec-decoder", 8000, 4000000, func(t *rapid.T) {
 		v := amf0x.Gen(t, genOpts())
-		err := ev.Try(func() error { return checkLibToRef(v) })
+		c := LCase{Val: v}
+		if rapid.IntRange(0, 2).Draw(t, "second") == 0 {
+			o := amf0x.Gen(t, genOpts())
+			c.Other = &o
+		}
+		if rapid.IntRange(0, 2).Draw(t, "edit") == 0 {
+			c.Edit = 1 + rapid.Uint64Range(0, 1<<20).Draw(t, "editsel")
+		}
+		err := ev.Try(func() error { return checkLibCase(c) })
 		cl, _ := classes(v)
-		recL2R.Case(len(cl) > 0, ev.Hash(v), cl, func() any { return map[string]any{"spec_layout": hexHead(amf0ref.Encode(v, amf0ref.Spec))} })
+		if c.Other != nil {
+			cl = append(cl, "held-across-another-marshal")
+		}
+		if c.Edit != 0 {
+			cl = append(cl, "edited-in-place")
+		}
+		recL2R.Case(len(cl) > 0, ev.Hash(c), cl, func() any { return map[string]any{"spec_layout": hexHead(amf0ref.Encode(v, amf0ref.Spec))} })
 		if err != nil {
-			p := ev.Fail(prop, "lib-to-spec-decoder", v, err)
+			p := ev.Fail(prop, "lib-to-spec-decoder", c, err)
 			t.Fatalf("%v (replay %s)", err, p)
 		}
 	})
@@ -313,7 +365,15 @@ func TestKnownStrictArray(t *testing.T) {
 func replayers() map[string]ev.Replayer {
 	return map[string]ev.Replayer{
 		"lib-to-spec-decoder": func(raw json.RawMessage) error {
-			var v amf0ref.Val
+			var probe map[string]json.RawMessage
+			if err := json.Unmarshal(raw, &probe); err == nil && probe["val"] != nil {
+				var c LCase
+				if err := json.Unmarshal(raw, &c); err != nil {
+					return err
+				}
+				return checkLibCase(c)
+			}
+			var v amf0ref.Val // older replay files hold the bare value
 			if err := json.Unmarshal(raw, &v); err != nil {
 				return err
 			}
